@@ -295,7 +295,7 @@ func run(prop string, cfg propCfg, tier string, seed uint64) int {
 	}
 
 	wall := 15 * time.Minute
-	cpuLimit := 600
+	cpuLimit := 240
 	if tier == "thorough" {
 		wall = 90 * time.Minute
 		cpuLimit = 4000
@@ -324,6 +324,10 @@ func run(prop string, cfg propCfg, tier string, seed uint64) int {
 				if p.Race {
 					args = append(args, "-race")
 					env = append(env, "GORACE=halt_on_error=0 log_path="+filepath.Join(workDir, "race."+tag))
+				} else if p.GOARCH == "" {
+					// a runaway allocation ends the child quickly instead of eating the machine (the race runtime needs a
+					// huge address space, so no limit there)
+					args = append(args, "-aslimit", "16384")
 				}
 				if p.Cover {
 					env = append(env, "GOCOVERDIR="+covDir)
